@@ -473,3 +473,150 @@ def session_history(rng, net, mtu, length, p_mut=0.15, p_noise=0.05, p_misc=0.1,
             fr = mutate(rng, fr, mtu, inflate_discover)
         out.append(fr[:mtu])
     return out
+
+
+# ---------------------------------------------------------------- observation churn (round 10)
+
+CHURN_TARGETS = [0, 1, 2, 15, 16, 17, 31, 32, 33, 63, 64, 65, 127, 128, 129, 255, 256, 257, 511, 512, 513, 767, 768, 769, 1023, 1024]
+
+
+def obs_churn(rng, net, m, mtu, mode=None, budget=2500, bridged=False, seq=None, discover_every=0.0):
+    """A long history that moves the number of pending observations of the station to chosen counts and pokes it there.
+
+    Whatever holds the observations between Queries (a list, an array that grows and shrinks, a ring, blocks, a hash) has
+    its slips at particular fill levels and after particular orders of events, not at particular frames.  The history
+    steers the pending count to powers of two, multiples of 256 and the 1024 bound (exactly, one below, one above) by
+    adding distinct Probe/Train frames and by Queries whose capacity is set through the MTU at the time of the Query
+    (`MTU` line before the Query: 34 + 20 n bytes carry n descriptors), and at every such level: a new observation, an
+    exact duplicate of a pending one, a frame seen again after it has been reported (in a truncated and in a final
+    QueryResp), a Query, optionally a Discover of the mapper, a Reset.  'sawtooth' never drains completely, so that more
+    than 1024 observations pass through one session; 'flood' goes beyond the bound.
+
+    The steering assumes min(capacity, pending) descriptors per QueryResp, newest first (what the pinned tree does); it is
+    used for reach only - the monitors judge with their own models.
+
+    -> (frames, {frame index: new MTU}, stats)"""
+    own = net.own
+    mode = mode or rng.choice(["boundaries", "boundaries", "sawtooth", "flood", "small"])
+    frames, mtu_changes = [], {}
+    seq = rng.randint(1, 40000) if seq is None else seq
+    pend = []            # steering model: pending (eth src, real src), oldest first
+    reported = []        # keys that left through a QueryResp since the last Reset (most recent last)
+    serial = [0]
+    reals = distinct_macs(rng, 4, avoid=[own])
+    base_mtu = mtu
+    stats = dict(levels=set(), passed=0, max_passed=0, queries=0, partial=0)
+    tag = bytes([2, rng.randrange(256)])
+
+    def nseq():
+        nonlocal seq
+        seq = seq + 1 if seq < 0xFFFF else 1
+        return seq
+
+    def new_key():
+        serial[0] += 1
+        return (tag + serial[0].to_bytes(4, "big"), reals[serial[0] % 3] if rng.random() < 0.9 else reals[3])
+
+    def send(key, train=None):
+        frames.append(W.probe(own, key[0], own, key[1], train=(rng.random() < 0.4) if train is None else train))
+        if key not in pend and len(pend) < 1024:
+            pend.append(key)
+            stats["passed"] += 1
+            stats["max_passed"] = max(stats["max_passed"], stats["passed"])
+
+    def set_mtu(v):
+        nonlocal mtu
+        if v != mtu:
+            mtu_changes[len(frames)] = v
+            mtu = v
+
+    def query(n=None):
+        """one Query; n: set the MTU so that exactly n descriptors fit"""
+        if n is not None:
+            n = max(1, min(n, 459))
+            set_mtu((68 + rng.randint(0, 5)) if n == 1 else 34 + 20 * n + rng.randint(0, 19))
+        frames.append(f_query(rng, net, m, seq=nseq(), bridged=bridged))
+        stats["queries"] += 1
+        k = min(cap_qresp(mtu), len(pend))
+        if k:
+            reported.extend(pend[len(pend) - k:])
+            del pend[len(pend) - k:]
+            del reported[:-2000]
+        if pend:
+            stats["partial"] += 1
+        else:
+            stats["passed"] = 0
+
+    def move_to(t):
+        while len(pend) < t and len(frames) < budget:
+            r = rng.random()
+            if r < 0.06 and pend:
+                send(rng.choice([pend[-1], pend[0], rng.choice(pend)]))         # exact duplicate of something pending
+            elif r < 0.10 and reported:
+                send(rng.choice([reported[-1], reported[0], rng.choice(reported)]))   # seen again after it was reported
+            else:
+                send(new_key())
+        while len(pend) > t and len(frames) < budget:
+            d = len(pend) - t
+            if rng.random() < 0.75:
+                query(d)
+            else:
+                set_mtu(rng.choice([base_mtu, 576, 1500]))
+                query()
+        stats["levels"].add(len(pend))
+
+    def poke():
+        for _ in range(rng.randint(1, 4)):
+            r = rng.random()
+            if r < 0.3:
+                send(new_key())
+            elif r < 0.45 and pend:
+                send(rng.choice([pend[-1], pend[0], rng.choice(pend)]))
+            elif r < 0.65 and reported:
+                send(rng.choice([reported[-1], reported[-min(len(reported), 2)], rng.choice(reported)]))
+            elif r < 0.8:
+                query(rng.choice([None, 1, 2, max(1, len(pend) // 2), max(1, len(pend) - 1)]))
+            elif r < 0.8 + discover_every:
+                frames.append(f_discover(rng, net, m=m, tos=0, bridged=bridged))
+            else:
+                send(new_key())
+                send(pend[-1] if pend else new_key())
+
+    frames.append(f_discover(rng, net, m=m, tos=0, bridged=bridged))
+    if mode == "small":
+        targets = [rng.choice(CHURN_TARGETS[:12]) for _ in range(rng.randint(6, 14))]
+    elif mode == "boundaries":
+        targets = [rng.choice(CHURN_TARGETS) for _ in range(rng.randint(4, 10))]
+    elif mode == "sawtooth":
+        targets = []
+        for _ in range(rng.randint(3, 6)):
+            targets += [rng.choice([300, 520, 700, 900, 1000, 1024]), rng.choice([1, 5, 100, 256, 400, 512])]
+    else:
+        targets = [1024, rng.choice([1023, 1000, 768, 512, 1]), 1024, rng.choice([0, 1, 256])]
+    for t in targets:
+        if len(frames) >= budget:
+            break
+        move_to(t)
+        if mode == "flood" and t == 1024:
+            for _ in range(rng.randint(1, 5)):
+                key = new_key()
+                frames.append(W.probe(own, key[0], own, key[1]))      # beyond the bound
+                if rng.random() < 0.5:
+                    frames.append(frames[-1])
+            if discover_every and rng.random() < 0.8:
+                frames.append(f_discover(rng, net, m=m, tos=0, bridged=bridged))
+        poke()
+        if rng.random() < 0.12:
+            frames.append(f_reset(rng, net, m=m, tos=0))
+            pend.clear()
+            reported.clear()
+            stats["passed"] = 0
+            frames.append(f_discover(rng, net, m=m, tos=0, bridged=bridged))
+            if rng.random() < 0.5 and frames:
+                send(new_key())
+    # deliver what is left (bounded), so that every observation has had its chance to be reported
+    set_mtu(rng.choice([base_mtu, 1500, 9000]))
+    for _ in range(min(60, len(pend) // max(1, cap_qresp(mtu)) + 2)):
+        query()
+    stats["levels"] = sorted(stats["levels"])
+    return frames, mtu_changes, stats
